@@ -73,6 +73,19 @@ static void check_deck(const std::string& text, const std::string& origin, const
     } else {
         for (size_t i = 0; i < a.fl.size(); ++i) if (!close_enough(a.fl[i], b.fl[i])) { R->violation("C19:float-differs:" + keytail, "floating value of " + origin + " changes beyond printed precision: " + vf::fmt17(a.fl[i]) + " -> " + vf::fmt17(b.fl[i]), rp); break; }
     }
+    // writing must not depend on queries made before: a Deck whose SI data has been requested (as EclipseState and
+    // Schedule construction do) is written and must still parse back to the same Deck
+    try {
+        std::ostringstream os3; os3 << *d; const std::string printed3 = os3.str();
+        if (printed3 != printed) {
+            ErrorGuard eg; Deck d3 = P->parseString(printed3, PC, eg); eg.clear();
+            Obs c = observe(d3);
+            bool same = c.st == a.st && c.fl.size() == a.fl.size();
+            for (size_t i = 0; same && i < a.fl.size(); ++i) same = close_enough(a.fl[i], c.fl[i]);
+            if (!same) { size_t p = 0; while (p < printed.size() && p < printed3.size() && printed[p] == printed3[p]) ++p; size_t s0 = p > 40 ? p - 40 : 0; R->violation("C19:after-si-access:" + keytail, "the Deck of " + origin + " is written differently after its SI data has been requested, and no longer parses back to the same Deck: …" + printed.substr(s0, 100) + " VS …" + printed3.substr(s0, 100), rp); }
+            else R->count("text_differs_after_si_access_but_same_deck");
+        }
+    } catch (const std::exception& e) { R->violation("C19:after-si-access-throws:" + keytail, "writing/re-parsing " + origin + " after SI access throws: " + std::string(e.what()).substr(0, 150), rp); }
     if (!p2ok) R->violation("C19:print-throws:" + keytail, "second print throws for " + origin, rp);
     else if (printed2 != printed) { size_t p = 0; const std::string& q = printed2; while (p < q.size() && p < printed.size() && q[p] == printed[p]) ++p; size_t s0 = p > 40 ? p - 40 : 0; R->violation("C19:not-a-fixpoint:" + keytail, "print(parse(print(d))) != print(d) for " + origin + ": …" + printed.substr(s0, 120) + " VS …" + q.substr(s0, 120), rp); }
 }
